@@ -13,7 +13,7 @@ ID = 'C16'
 LEVEL = 'exploration'
 RULE = ('a real tree is built per run: base/{top.txt, root/{f.txt, .hidden, "we ird.txt", "a\\\\b.txt", sub/{g.txt, deep/h.txt}}, root2/decoy.txt, '
         'rootx/secret.txt, root_backup/secret.txt, other/secret.txt, case-variant twins Root/ and ROOT/, a second site site2/ with the same relative layout, a mirror tree backup/<absolute path of the root>/ beside the root and one inside it}. case = (root spelling: absolute, with trailing separator(s), relative to the '
-        'working directory (which alternates between base and base/site2 from request to request), with a dot-dot detour, the nested root root/sub, and directories literally called ~, ~/static, $HOME, ~user in the working directory while HOME points at a decoy tree; file name = prefix in {"", "/", "\\\\", "//", absolute base, absolute '
+        'working directory (which alternates between base and base/site2 from request to request), with a dot-dot detour, the nested root root/sub, the working directory itself spelled as the empty string, dot or dot-slash, and directories literally called ~, ~/static, $HOME, ~user in the working directory while HOME points at a decoy tree; file name = prefix in {"", "/", "\\\\", "//", absolute base, absolute '
         'root, "/etc/"} + 1-6 segments from {file and directory names of the tree, ".", "..", "", "...", sibling directory names, "passwd", NUL '
         'segment} joined by separators from {"/", "\\\\", "//", "/./", "\\\\\\\\"} + optional trailing separator), served by static_file from a handler '
         'of the default application. Oracle: independent string normalisation of the location (POSIX reading and backslash-as-separator reading); '
@@ -36,9 +36,11 @@ FILES = {
     'site2/root/f.txt': b'site2 f', 'site2/root/sub/g.txt': b'site2 g', 'site2/top.txt': b'SITE2-TOP-DECOY', 'site2/root2/decoy.txt': b'SITE2-ROOT2-DECOY',
 }
 SEGS = ['Root', 'ROOT', 'SUB', 'Deep', 'F.TXT', 'f.txt', 'sub', 'g.txt', 'deep', 'h.txt', '.hidden', 'we ird.txt', 'a\\b.txt', '.', '..', '..', '..', '', '...', 'root', 'root2', 'rootx', 'root_backup',
-        'other', 'decoy.txt', 'secret.txt', 'top.txt', 'passwd', 'etc', 'a', 'b.txt', '\0', 'nofile']
+        'other', 'decoy.txt', 'secret.txt', 'top.txt', 'passwd', 'etc', 'a', 'b.txt', '\0', 'nofile',
+        # dot-dot with a control character inside / beside it (a name filter that drops such characters would turn these into '..')
+        '.\0.', '..\n', '\r..', '.\r.', '..\0', '.\n.', '\0..', '. .', '.\t.', '..;', '%2e%2e', '.%00.']
 SEPS = ['/', '/', '/', '\\', '\\', '//', '/./', '\\\\', '/\\', '\\/']
-ROOTS = ['abs', 'abs/', 'abs//', 'rel', './rel', 'rel/', 'detour', 'nested', 'nested/', 'abs/.', 'rel\\', '~', '~/', './~', '~/static', '$HOME', '~nobody-verif']
+ROOTS = ['abs', 'abs/', 'abs//', 'rel', './rel', 'rel/', 'detour', 'nested', 'nested/', 'abs/.', 'rel\\', '~', '~/', './~', '~/static', '$HOME', '~nobody-verif', 'empty', 'dot', 'dot/']
 PREFIXES = ['', '', '', '/', '\\', '//', '../', '..\\', '<base>/', '<root>/', '/etc/', './', '<base>', '/../', '../backup<root>/', '../../backup<root>/', 'mirror<root>/', '../backup<base>/']
 
 _STATE = {}
@@ -80,6 +82,9 @@ def cleanup():
 def root_of(spec, base, cwd=None):
     """(root argument given to static_file, true absolute root directory); relative spellings are relative to the working directory"""
     R = base + '/root'
+    if spec in ('empty', 'dot', 'dot/'):
+        # the working directory itself as root, spelled '' (what os.path.dirname('app.py') gives), '.' or './'
+        return {'empty': '', 'dot': '.', 'dot/': './'}[spec], (cwd or base)
     if spec in ('~', '~/', './~', '~/static', '$HOME', '~nobody-verif'):
         here = cwd or base           # relative spellings: a directory literally called '~' (...) in the working directory
         return {'~': ('~', here + '/~'), '~/': ('~/', here + '/~'), './~': ('./~', here + '/~'), '~/static': ('~/static', here + '/~/static'), '$HOME': ('$HOME', here + '/$HOME'),
@@ -166,7 +171,7 @@ def check_case(ctx, case):
             raise CheckFailure(f'static_file({name!r}, root={root_arg!r}) answered 200 with body {r.body[:60]!r}; normalised location {L1!r} '
                                f'(backslash reading {L2!r}) is not a file inside the root {R!r}')
         ctx.count('served_200')
-        if b'DECOY' in r.body:
+        if b'DECOY' in r.body and case['root'] not in ('empty', 'dot', 'dot/'):         # (with the working directory itself as root the decoys are legitimately inside it)
             raise CheckFailure(f'decoy content served for {name!r}')
     elif r.code in (403, 404):
         ctx.count(f'refused_{r.code}')
@@ -269,6 +274,9 @@ def run(ctx):
             escapes += ['../backup<root>/secret.txt', '../backup<root>/f.txt', '../../backup<root>/secret.txt', '../backup/<root>/secret.txt', 'mirror<root>/secret.txt',
                         '../backup<root>/../root/secret.txt']
             escapes += ['../Root/f.txt', '../ROOT/secret.txt', '..\\Root\\f.txt', 'SUB/g.txt', '../root/../Root/f.txt', '../../' + base.strip('/').upper() + '/top.txt']
+            # dot-dot spelled with a control character / blank / escape inside or beside it
+            for dd in ('.\0.', '..\n', '\r..', '.\r.', '..\0', '.\n.', '\0..', '. .', '.\t.', '%2e%2e', '.%00.', '..%00'):
+                escapes += [dd + '/top.txt', dd + '/secret.txt', 'sub/' + dd + '/' + dd + '/top.txt', dd + '/root2/decoy.txt', dd + '\\top.txt']
             for rs in ROOTS:
                 for e in escapes:
                     for cwd in ('', 'site2', ''):
